@@ -174,14 +174,16 @@ theorem KX_tryPut (c : Cfg) (s : State) (h dl : List Nat) (ex : Option Nat) (k :
       exact List.mem_append_left _ he
 
 /-- What `yieldItem` does to the snapshot fields when it returns the batch. -/
-theorem yieldItem_fields (c : Cfg) (s : State) (r : Res) (b : Nat) (hio : c.inOrder = true)
+theorem yieldItem_fields (c : Cfg) (s : State) (r : Res) (b : Nat) (hit : c.iterable = true)
+    (hio : c.inOrder = true)
     (hitem : (yieldItem c s r b).2 = .item b) :
     (yieldItem c s r b).1.wsnaps = applyDelta s.wsnaps r.w r.st ∧
     (yieldItem c s r b).1.numYielded = s.numYielded + 1 ∧
     ((c.interval ≠ 0 ∧ (s.numYielded + 1) % c.interval = 0) →
       ∃ x, (yieldItem c s r b).1.snap = ⟨s.numYielded + 1, r.w, x, applyDelta s.wsnaps r.w r.st⟩) ∧
     (¬ (c.interval ≠ 0 ∧ (s.numYielded + 1) % c.interval = 0) → (yieldItem c s r b).1.snap = s.snap) := by
-  unfold yieldItem at hitem ⊢
+  rw [yieldItem_iter c s r b hit] at hitem ⊢
+  unfold yieldItemOld at hitem ⊢
   dsimp only at hitem ⊢
   by_cases hdue : c.interval ≠ 0 ∧ (s.numYielded + 1) % c.interval = 0
   · rw [if_pos hdue] at hitem ⊢
